@@ -70,10 +70,12 @@ def join (sep : List α) : List (List α) → List α
 
 /-- The lines `readline()` returns one after the other on a `StringIO` (default
 `newline="\n"`: only `'\n'` terminates a line, and it is kept). -/
-def splitLinesAux : List Char → List Char → List (List Char)
-  | acc, [] => if acc.isEmpty then [] else [acc.reverse]
-  | acc, c :: cs => if c == '\n' then (c :: acc).reverse :: splitLinesAux [] cs else splitLinesAux (c :: acc) cs
-
-def splitLines (s : List Char) : List (List Char) := splitLinesAux [] s
+def splitLines : List Char → List (List Char)
+  | [] => []
+  | c :: cs =>
+    if c = '\n' then [c] :: splitLines cs
+    else match splitLines cs with
+      | [] => [[c]]
+      | l :: ls => (c :: l) :: ls
 
 end Cfi.Text
